@@ -187,11 +187,15 @@ def c11_3(R):
         if cls != "None":
             continue
         n += 1
-        descs = [d for c, truth, d, *_ in controlling(b, it.bb)]
+        ctl = controlling(b, it.bb)
+        descs = [d for c, truth, d, *_ in ctl]
+        if any(d.startswith("discr:call:") and "UtpHeader::deserialize" in d and d.endswith("=None") for d in descs):
+            n -= 1
+            continue  # the header itself did not parse (`?` written out as a match): not a payload-rule rejection
         data = any(d.endswith("=ST_DATA") for d in descs)
         nondata = any(d.startswith("discr:") and "get_type" in d and not d.endswith("=ST_DATA") for d in descs)
-        zero = any(d.startswith("bin:Eq(") and d.endswith(",const 0)=true") for d in descs)
-        pos = any(d.startswith("bin:Gt(") and d.endswith(",const 0)=true") or d.startswith("bin:Ne(") and d.endswith(",const 0)=true") for d in descs)
+        zero = any(zero_test(c, truth) is not None for c, truth, d, *_ in ctl)
+        pos = any(nonzero_test(c, truth) is not None for c, truth, d, *_ in ctl)
         if data and zero:
             seen.add("data-empty")
         elif nondata and pos:
@@ -214,8 +218,6 @@ def c11_3(R):
                 if rg.kind == "rv" and rg.root[1].rv.j.get("adt", "").endswith("RangeFrom"):
                     st = trace(b, rg.root[1].rv.ops[0])
                     if "tuple.1" in st.fields and st.kind == "call" and call_matches(st.root[1], (DES,)) or (st.kind == "call" and "Try::branch" in (st.root[1].callee or "")):
-                        okp = True
-                    elif "hsize" in st.describe():
                         okp = True
     if okp:
         R.ok("payload=buf[hsize..]", b.name, "payload starts at the header size returned by UtpHeader::deserialize")
